@@ -526,6 +526,42 @@ Section Ingest2.
     unfold ingest. rewrite Er, Er'. unfold ls. rewrite (drop_water_lines2 lines Hr). reflexivity.
   Qed.
 
+  (* drop_water looks at the residue name only: a coordinate record whose residue
+     name is not a water name survives, whatever its serial, chain or position *)
+  Lemma drop_water_keeps a recs :
+    In (RAtom a) recs -> mem_str (a_resname a) water_names = false -> In (RAtom a) (drop_water recs).
+  Proof.
+    intros Hi Hw. unfold drop_water. apply filter_In. split; [exact Hi|].
+    cbn [dropped_by_drop_water]. rewrite Hw, andb_false_r. reflexivity.
+  Qed.
+
+  Lemma drop_water_removes a recs :
+    tok0_ok a = true -> mem_str (a_resname a) water_names = true -> ~ In (RAtom a) (drop_water recs).
+  Proof.
+    intros Ht Hw Hi. unfold drop_water in Hi. apply filter_In in Hi as [_ Hf].
+    cbn [dropped_by_drop_water] in Hf. unfold tok0_ok in Ht. rewrite Ht, Hw in Hf. discriminate.
+  Qed.
+
+  (* with --drop-water: loud, or exactly the non-water coordinate lines of the first
+     model (first listed per identity), whatever the serial numbers *)
+  Theorem drop_water_complete lines :
+    forallb chunk_ok lines = true ->
+    guard2 fok tab (filter (fun l => negb (is_water_line2 fok l)) lines) = true ->
+    if existsb (raises fok) lines
+    then ingest fok tab true lines = Raised "ValueError"
+    else exists rs, ingest fok tab true lines = Done rs /\
+           Permutation (map a_src (all_atoms rs))
+             (map strip (cols_read2 fok (filter (fun l => negb (is_water_line2 fok l)) lines))).
+  Proof.
+    intros Hc Hg. destruct (existsb (raises fok) lines) eqn:Er.
+    - pose proof (read_total lines Hc) as R. rewrite Er in R. unfold ingest. rewrite R. reflexivity.
+    - rewrite (drop_water_all lines Hc Er).
+      pose proof (loud_or_complete _ Hg) as L.
+      assert (Hr' : existsb (raises fok) (filter (fun l => negb (is_water_line2 fok l)) lines) = false).
+      { eapply existsb_sub; [|exact Er]. intros x Hx. apply filter_In in Hx. tauto. }
+      rewrite Hr' in L. exact L.
+  Qed.
+
   (* ---- cutting a coordinate line: every position ------------------------------------------
 
      [take k l] is the line cut after column k.  (read_pdb strips the line first: a
